@@ -118,6 +118,20 @@ structure Mon where
   contact : Int := 0
   /-- an event MAY be pending on the counter: one was raised and no tick has consumed it since -/
   mayEvent : Bool := false
+  /-- an event IS pending: raised by `Op.event` on an existing counter, not consumed, counter not replaced since -/
+  mustEvent : Bool := false
+  /-- the bounded item applied at the last effective sync -/
+  applied : Option Item := none
+  /-- requests in flight: their id and whether they were admitted by the remote limiter in force now (not rebuilt,
+      not stopped since) -/
+  held : List (Nat × Bool) := []
+  /-- how many of them count against the remote limiter in force -/
+  nRem : Int := 0
+  /-- requests admitted by a remote limiter were still running when it was (legitimately) rebuilt or stopped: the
+      in-flight clause is not applied any more (see notes: their Release goes into the NEW limiter) -/
+  tainted : Bool := false
+  /-- token-bucket count wrapper: tokens of requests sent and not answered (what `tokenInflight` must be) -/
+  owed : Int := 0
   deriving Repr, Inhabited
 
 /-- does this server-info sync publish ANOTHER leader for the cluster's shard than the one known? Only then does it
@@ -136,6 +150,32 @@ def effective (m : Mon) : Op → Bool
   | .answer true item =>
     match m.schema with
     | some s => enableGlobal s && decide (itemType item = guessType s)
+    | none => false
+  | _ => false
+
+/-- the item an effective sync applies -/
+def syncItem (m : Mon) : Op → Option Item
+  | .reconcileCount => m.schema.map fun s => { strategy := s.strategy, mi := s.gmi, tb := s.gtb }
+  | .answer true item => some item
+  | _ => none
+
+/-- **which syncs REBUILD the remote limiter** (`newFlowControl`: an empty max-in-flight bucket, a new counter) instead
+    of resizing it in place: an effective sync that is not a repetition (same item, same bounded item) and finds no
+    limiter yet, a limiter of another type, or another strategy. A changed limit alone never rebuilds. -/
+def rebuilds (m : Mon) (op : Op) : Bool :=
+  effective m op &&
+  match syncItem m op, m.schema with
+  | some item, some s =>
+    !(decide (m.prev.remoteConfig = some item) && decide (m.applied = some (boundByGlobalLimit s item))) &&
+    (decide (m.prev.wkind = 0) || decide (m.prev.rlim.map (·.kind) ≠ some (itemType item)) ||
+     decide ((match m.prev.remoteConfig with | some c => c.strategy | none => Strategy.empty) ≠ item.strategy))
+  | _, _ => false
+
+/-- does this schema sync stop the remote wrapper (`stopRemoteWrapper`)? -/
+def stopsRemote (m : Mon) : Op → Bool
+  | .schema s =>
+    match m.schema with
+    | some old => decide (s ≠ old) && decide (guessType s = guessType old) && !enableGlobal s
     | none => false
   | _ => false
 
@@ -167,7 +207,41 @@ def Mon.next (m : Mon) (op : Op) (o : Obs) : Mon :=
       else match op with
         | .tick now (some _) => if o.req.isSome then (if m.contact < unixS now then unixS now else m.contact) else m.contact
         | _ => m.contact
-    mayEvent := match op with | .event => true | .tick _ _ => false | _ => m.mayEvent }
+    mayEvent := match op with | .event => true | .tick _ _ => false | _ => m.mayEvent
+    mustEvent := match op with
+      | .event => decide (m.prev.wkind = 2 ∨ m.prev.wkind = 3)
+      | .tick _ _ => false
+      | _ => m.mustEvent && !rebuilds m op && !stopsRemote m op
+    applied := if effective m op then
+        (match syncItem m op, m.schema with | some item, some s => some (boundByGlobalLimit s item) | _, _ => m.applied)
+      else m.applied
+    held :=
+      if rebuilds m op || stopsRemote m op then m.held.map fun h => (h.1, false)
+      else match op with
+        | .acquire id =>
+          if o.admitted = some true ∧ !(m.held.any (·.1 == id)) then (id, decide (m.prev.choice = .remote)) :: m.held
+          else m.held
+        | .release id => m.held.filter fun h => !(h.1 == id)
+        | _ => m.held
+    nRem :=
+      if rebuilds m op || stopsRemote m op then 0
+      else match op with
+        | .acquire id =>
+          if o.admitted = some true ∧ !(m.held.any (·.1 == id)) ∧ m.prev.choice = .remote then m.nRem + 1 else m.nRem
+        | .release id => if m.held.any (fun h => h.1 == id && h.2) then m.nRem - 1 else m.nRem
+        | _ => m.nRem
+    tainted := m.tainted || ((rebuilds m op || stopsRemote m op) && m.held.any (·.2))
+    owed :=
+      if rebuilds m op || stopsRemote m op then 0
+      else if m.prev.wkind = 3 then
+        match op with
+        | .tick _ ans =>
+          match o.req with
+          | some hits => if ans.isSome then i32add (i32add m.owed hits) (toI32 (-hits)) else i32add m.owed hits
+          | none => m.owed
+        | .setLimit r => if r.hasReq then i32add m.owed (toI32 (-r.tokens)) else m.owed
+        | _ => m.owed
+      else m.owed }
 
 def expectedChoice (cfg : Cfg) (m : Mon) : Choice :=
   match m.schema with
@@ -260,10 +334,41 @@ def judgeTick (m : Mon) (now : Int) (ans : Option TickAnswer) (o : Obs) : List S
      judgeSetLimit m (tickReply a hits now) o
    | _, _ => [])
 
+def reqPositive : Option Int → Bool
+  | some h => decide (h > 0)
+  | none => false
+
+def isMI : Option Lim → Bool
+  | some (.mi _) => true
+  | _ => false
+
+/-- **tokens ARE requested when there is demand and room**: a round of a token-bucket count wrapper with a pending
+    event (demand), whose reserve is not full once the tokens of the requests still unanswered are counted
+    (`room = reserve − tokens − owed > 0`), must ask for more than zero tokens — unless the room is below one batch
+    and the last answer is less than `batchAcquireMaxDuration` old. A wrapper whose `tokenInflight` has leaked (tokens
+    of FAILED requests never given back) stops asking for ever: the granted quota never takes effect again. -/
+def judgeDemand (m : Mon) (now : Int) (o : Obs) : List String :=
+  let p := m.prev
+  let room := i32sub (i32sub p.wreserve p.tokens) m.owed
+  if p.wkind = 3 ∧ m.mustEvent = true ∧ room > 0 ∧ p.tokenBatch ≥ 1 ∧
+     (room ≥ p.tokenBatch ∨ now - p.lastAcq ≥ batchAcquireMaxDuration) ∧
+     reqPositive o.req = false
+  then ["c09.no-tokens-requested-on-demand"] else []
+
+/-- **in-flight accounting**: when a request is admitted by the remote max-in-flight limiter, the requests admitted by
+    that limiter and unfinished — this one included, and across every resize, global-limit change, outage and recovery,
+    because none of these may replace the bucket that counts them — are at most the bound in force -/
+def judgeAcquire (m : Mon) (id : Nat) (o : Obs) : List String :=
+  let p := m.prev
+  if o.admitted = some true ∧ !(m.held.any (·.1 == id)) ∧ p.choice = .remote ∧ m.tainted = false ∧
+     isMI p.rlim = true ∧ ¬ (m.nRem + 1 ≤ m.ob.mi)
+  then ["c09.inflight-exceeds-global"] else []
+
 /-- clauses about the transition made by `op` from the monitor `m` (before) to the observation `o` (after) -/
 def judgeTrans (m : Mon) (op : Op) (o : Obs) : List String :=
   match op with
-  | .tick now ans => judgeTick m now ans o
+  | .tick now ans => judgeTick m now ans o ++ judgeDemand m now o
+  | .acquire id => judgeAcquire m id o
   | .answer true item =>
     if effective m op && decide (o.wkind = 1) then
       match m.schema with
